@@ -123,6 +123,13 @@ theorem C19_table_is_spec (texts : List (List Gomjml.Amp.B)) (c : List Gomjml.Am
     (collect texts).get c = spec texts c := collect_spec texts c
 
 open Gomjml.InlineCss in
+/-- nothing but declarations of parsed rules gets into the table, and every kept declaration has a property and a value -/
+theorem C19_table_entries (texts : List (List Gomjml.Amp.B)) (c : List Gomjml.Amp.B) :
+    (∀ d ∈ (collect texts).get c, ∃ t ∈ texts, ∃ r ∈ parseRules t, d ∈ r.decls) ∧
+    ∀ part, ∀ d ∈ parseDecls part, d.prop ≠ [] ∧ d.val ≠ [] :=
+  ⟨fun d hd => spec_mem texts c d (by rwa [collect_spec] at hd), parseDecls_nonempty⟩
+
+open Gomjml.InlineCss in
 /-- only a lone class selector is inlined: a dot, a non-empty name, and nothing that continues the selector
     (no descendant, compound, pseudo-class, attribute or universal part) -/
 theorem C19_lone_class_only (sel name : List Gomjml.Amp.B) (h : extractClass sel = some name) :
